@@ -654,3 +654,159 @@ def sparse_inplace_rule(rule, w, repo):
                                "%s = %s %s .." % (pf.norm_expr(st.target), pf.norm_expr(st.target), "+" if isinstance(st.op, ast.Add) else "-"),
                                pf.norm_expr(st)[:80])
     return n
+
+
+def asymmetric_alternative_rule(rule, w):
+    """`type(y) is variable or (type(y) is _function and ..) and SIZE_TEST(y)` parses as
+    `T1 or (T2 and SIZE_TEST)`: the size test guards only one of the two type alternatives.  For an
+    `or` whose operands are a bare type test of y and a conjunction that starts with another type
+    test of y, every further conjunct that reads y through something that both types support
+    (len(y), y.size - not a method of one type like y._isaffine()) must also constrain the bare
+    alternative, i.e. the bare type test may not stand alone."""
+    m = w.mods["modeling"]
+    n = 0
+
+    def type_test(e):
+        """name tested by `type(NAME) is T`, else None"""
+        if isinstance(e, ast.Compare) and len(e.ops) == 1 and isinstance(e.ops[0], ast.Is) and isinstance(e.left, ast.Call) \
+                and isinstance(e.left.func, ast.Name) and e.left.func.id == "type" and len(e.left.args) == 1:
+            return pf.norm_expr(e.left.args[0])
+        return None
+
+    def flat_and(e):
+        if isinstance(e, ast.BoolOp) and isinstance(e.op, ast.And):
+            out = []
+            for v in e.values:
+                out += flat_and(v)
+            return out
+        return [e]
+    for q, fn in m.funcs.items():
+        for e in pf._scope_nodes(fn):
+            if not (isinstance(e, ast.BoolOp) and isinstance(e.op, ast.Or)):
+                continue
+            bare = [(v, type_test(v)) for v in e.values if type_test(v)]
+            for v in e.values:
+                cj = flat_and(v)
+                if len(cj) < 2:
+                    continue
+                heads = [type_test(c) for c in cj if type_test(c)]
+                for bv, y in bare:
+                    if y not in heads:
+                        continue
+                    n += 1
+                    key = "modeling.%s:alternatives of %s @%s" % (q, y, pf.norm_expr(e)[:50])
+                    where = m.where(e, fn)
+                    shared = []
+                    for c in cj:
+                        if type_test(c):
+                            continue
+                        # reads of y through a generic protocol: len(y), y.size, y[..]
+                        for x in ast.walk(c):
+                            if isinstance(x, ast.Call) and isinstance(x.func, ast.Name) and x.func.id == "len" and x.args and pf.norm_expr(x.args[0]) == y:
+                                shared.append(pf.norm_expr(c))
+                            elif isinstance(x, ast.Attribute) and x.attr == "size" and pf.norm_expr(x.value) == y:
+                                shared.append(pf.norm_expr(c))
+                    if shared:
+                        rule.violation(key, where,
+                                       "`%s` constrains %s only together with the second type test; the first alternative `%s` is accepted without it "
+                                       "(`a or b and c` is `a or (b and c)`): a %s of the wrong length is admitted" % (shared[0][:60], y, pf.norm_expr(bv), y),
+                                       "(%s or ..) and %s" % (pf.norm_expr(bv), shared[0][:50]), pf.norm_expr(e)[:120])
+                    else:
+                        rule.ok(key, where, "the extra conjuncts are predicates of the second type only")
+    return n
+
+
+def sparse_len_rule(rule, w):
+    """len() of a sparse matrix is its number of nonzeros.  A method that admits an argument X
+    through `_ismatrix(X)` (dense or sparse) must not measure it with len(X)."""
+    m = w.mods["modeling"]
+    n = 0
+    for q, fn in m.funcs.items():
+        admitted = set()
+        for x in pf._scope_nodes(fn):
+            if isinstance(x, ast.Call) and isinstance(x.func, ast.Name) and x.func.id in ("_ismatrix", "_isspmatrix") and x.args \
+                    and isinstance(x.args[0], ast.Name):
+                admitted.add(x.args[0].id)
+        admitted &= set(pf.arg_names(fn))
+        for X in sorted(admitted):
+            lens = [x for x in pf._scope_nodes(fn) if isinstance(x, ast.Call) and isinstance(x.func, ast.Name) and x.func.id == "len"
+                    and x.args and isinstance(x.args[0], ast.Name) and x.args[0].id == X]
+            # uses under a path that excludes sparse matrices are fine
+            bad = []
+            for l in lens:
+                conds = pf.path_condition(l, cross_loops=True)
+                pos = _pos_atoms(conds)
+                neg = {a.args[0].args for c in conds for a in pf._flatten_and(c) if a.kind == "not" and a.args[0].kind == "atom"}
+                if "_ismatrix(%s)" % X in neg:
+                    continue
+                if "_isdmatrix(%s)" % X in pos or "(type(%s) is _function)" % X in pos or "(type(%s) is variable)" % X in pos:
+                    continue
+                bad.append(l)
+            n += 1
+            key = "modeling.%s:`%s` (dense or sparse) is not measured with len()" % (q, X)
+            if bad:
+                rule.violation(key, m.where(bad[0], fn),
+                               "`%s` is admitted by _ismatrix(%s), so it may be sparse, and is measured with len(%s) - the number of stored "
+                               "nonzeros, not the number of rows: a sparse vector with zeros is refused as having the wrong length (or one of the "
+                               "wrong length accepted)" % (X, X, X), "%s.size[0]" % X, pf.norm_expr(pf.enclosing_stmt(bad[0]))[:80])
+            else:
+                rule.ok(key, m.where(fn, fn))
+    return n
+
+
+def none_result_rule(rule, w):
+    """_vecmax / _vecmin return None when an argument has no value; value() methods propagate
+    that.  The result of such a call must not be consumed by another call or by arithmetic before
+    it has been compared with None (returning it as it is propagates the None)."""
+    m = w.mods["modeling"]
+    n = 0
+    for q, fn in m.funcs.items():
+        for x in pf._scope_nodes(fn):
+            if not (isinstance(x, ast.Call) and isinstance(x.func, ast.Name) and x.func.id in ("_vecmax", "_vecmin")):
+                continue
+            if q in ("_vecmax", "_vecmin"):
+                continue
+            p = getattr(x, "_parent", None)
+            n += 1
+            key = "modeling.%s:result of %s(..) is tested for None before use" % (q, x.func.id)
+            where = m.where(x, fn)
+            if isinstance(p, ast.Return):
+                rule.ok(key, where, "returned as it is")
+            elif isinstance(p, ast.Assign) and len(p.targets) == 1 and isinstance(p.targets[0], ast.Name):
+                v = p.targets[0].id
+                tested = any(isinstance(c, ast.Compare) and isinstance(c.left, ast.Name) and c.left.id == v and isinstance(c.ops[0], (ast.Is, ast.IsNot))
+                             for c in pf._scope_nodes(fn))
+                if tested:
+                    rule.ok(key, where, "`%s is None` is tested" % v)
+                else:
+                    rule.violation(key, where, "the result `%s` may be None (a variable without value) and is never compared with None" % v,
+                                   "if %s is None: return None" % v, pf.norm_expr(p)[:80])
+            else:
+                rule.violation(key, where,
+                               "the result of %s(..) - None when a variable has no value - is passed straight into `%s`: value() raises TypeError "
+                               "instead of returning None" % (x.func.id, pf.norm_expr(p)[:50] if p is not None else "?"),
+                               "val = %s(..); if val is None: return None" % x.func.id, pf.norm_expr(p)[:80] if p is not None else "")
+    return n
+
+
+def value_copy_rule(rule, w):
+    """value() returns a new object: the returned name is never still bound to an attribute of
+    self (f.value()[0] = .. must not change f)."""
+    m = w.mods["modeling"]
+    n = 0
+    for q, fn in m.funcs.items():
+        if not q.endswith(".value") or q.split(".")[0] not in EXPR_CLASSES:
+            continue
+        for r in [x for x in pf._scope_nodes(fn) if isinstance(x, ast.Return) and isinstance(x.value, ast.Name)]:
+            v = r.value.id
+            binds = [a for a in pf.stmts_of(fn) if isinstance(a, ast.Assign) and len(a.targets) == 1 and isinstance(a.targets[0], ast.Name) and a.targets[0].id == v]
+            n += 1
+            key = "modeling.%s:returned `%s` is not an attribute of self" % (q, v)
+            bare = [a for a in binds if isinstance(a.value, ast.Attribute) and isinstance(a.value.value, ast.Name) and a.value.value.id == "self"]
+            if bare:
+                rule.violation(key, m.where(bare[0], fn),
+                               "`%s = %s` binds the result to the function's own storage; on the path without further terms value() returns that "
+                               "object itself" % (v, pf.norm_expr(bare[0].value)), "%s = +%s" % (v, pf.norm_expr(bare[0].value)), pf.norm_expr(bare[0]))
+            else:
+                rule.ok(key, m.where(r, fn))
+    return n
